@@ -685,6 +685,40 @@ def c08(ctx):
             out.append(bad(R, key, 'an inner future is polled with %s instead of the caller\'s context: whatever that future registers for its wake-up is not the awaiting task, which is then never polled again unless a pool thread happens to run the queue' % wrong[0][1][:80], loc=p.loc(wrong[0][0]), fn=p.name))
         else:
             out.append(ok(R, key, 'all %d inner polls receive the context this poll was called with' % len(sites), fn=p.name))
+    # (e') the same order on the unwind path: when the operation's future panics inside its poll, everything that unwinding destroys in
+    # SyncFuture::poll is destroyed in an order that keeps the slot: no completion sender dies (= "finished" for the slot job) while the
+    # user future - and whatever it still owns - is alive
+    if p:
+        key = 'SyncFuture::poll|unwind-keeps-the-slot'
+        g_ = cg(ctx)
+        upolls = [s_ for s_ in g_.sites.get(p.name, []) if s_.kind == 'poll' and s_.foreign]
+        probs = []
+        for s_ in upolls:
+            u_ = s_.t.get('unwind')
+            order = []
+            seen_u = set()
+            while isinstance(u_, int) and u_ not in seen_u:
+                seen_u.add(u_)
+                tt = p.blocks[u_]['term']
+                if not tt:
+                    break
+                if tt['k'] == 'drop' and not tt['pl']['p']:
+                    order.append(clean_ty(p.local_ty(tt['pl']['l']) or ''))
+                if tt['k'] in ('drop', 'goto'):
+                    u_ = tt.get('target')
+                else:
+                    break
+            fut_i = [i for i, t_ in enumerate(order) if t_ in [g2['name'] for g2 in p.generics] or 'SyncFutureState' in t_]
+            snd_i = [i for i, t_ in enumerate(order) if 'oneshot::Sender' in t_]
+            if snd_i and (not fut_i or min(snd_i) < max(fut_i)):
+                probs.append(s_)
+        if not upolls:
+            out.append(undecided(R, key, 'poll of the operation\'s future not found'))
+        elif probs:
+            out.append(bad(R, key, 'when the operation\'s future panics inside its poll, unwinding out of SyncFuture::poll drops a completion sender before the future itself: the slot job sees "finished", '
+                           'the queue moves on, and the next operation runs while the panicking operation\'s sub-futures and their captures are still alive', loc=probs[0].loc, fn=p.name))
+        else:
+            out.append(ok(R, key, 'no completion sender is destroyed on the unwind path before the operation\'s future', fn=p.name))
     # (e) drop order
     adt = F.adts.get('desync::SyncFuture')
     key = 'SyncFuture|drop-order'
